@@ -175,7 +175,7 @@ Definition temporal_ft (ft : ftype) : Prop := is_temporal ft = true.
 (** what the pruner makes of an instant [z] (clamped at 0 in the pinned tree) *)
 Definition pruner_view (z : Z) : Z := if tsite_pruner_clamps then Z.max z 0 else z.
 
-Theorem sites_agree : forall (s : bytes) (ft : ftype),
+Theorem sites_agree_gen : forall (s : bytes) (ft : ftype),
   temporal_ft ft ->
   match parse_str_to_epoch_seconds s with
   | Some z =>
@@ -221,23 +221,42 @@ Proof.
       split; [reflexivity | exact (proj2 (u64_fallback_wraps_negative s u E U))].
 Qed.
 
-(** When the literal denotes an instant at or after the epoch, every site yields exactly it. *)
-Corollary sites_agree_nonneg : forall s ft z,
-  temporal_ft ft -> parse_str_to_epoch_seconds s = Some z -> 0 <= z ->
-  site_payload ft (Some (TStr s)) = PNum z
-  /\ site_where (TStr s) = CNum z
-  /\ site_since_row s = SinceNum z
-  /\ site_filter ft (TStr s) = SInt z
-  /\ pruner_ts (SUtf8 s) = z
-  /\ pruner_ts (SInt z) = z
-  /\ parse_since_epoch s = Some z.
+(** The repaired tree ([tsite_pruner_clamps = false], no u64 fall-back): every site reads a
+    parsable literal as exactly the same second, negative instants included; only the
+    materialiser (spec.rs, unsigned watermark) still clamps at 0.  A literal no parser accepts is
+    [i64::MIN] for the pruner, i.e. it restricts nothing. *)
+Theorem sites_agree : forall (s : bytes) (ft : ftype),
+  temporal_ft ft ->
+  match parse_str_to_epoch_seconds s with
+  | Some z =>
+      site_payload ft (Some (TStr s)) = PNum z
+      /\ site_where (TStr s) = CNum z
+      /\ site_since_row s = SinceNum z
+      /\ site_filter ft (TStr s) = SInt z
+      /\ pruner_ts (site_since_filter s) = z
+      /\ pruner_ts (site_filter ft (TStr s)) = z
+      /\ parse_since_epoch s = Some (Z.max z 0)
+  | None =>
+      site_payload ft (Some (TStr s)) = PErr
+      /\ site_where (TStr s) = CStr
+      /\ site_since_row s = SinceIgnored
+      /\ site_filter ft (TStr s) = SUtf8 s
+      /\ pruner_ts (SUtf8 s) = - 2 ^ 63
+  end.
 Proof.
-  intros s ft z Hft E Hz. pose proof (sites_agree s ft Hft) as H. rewrite E in H.
-  destruct H as [A [B [C [D [F [G I]]]]]].
-  unfold site_since_filter in F. rewrite D in G.
-  assert (V : pruner_view z = z) by (unfold pruner_view; destruct tsite_pruner_clamps; lia).
-  rewrite V in F, G. rewrite Z.max_l in I by lia.
-  repeat split; assumption.
+  intros s ft Hft. pose proof (sites_agree_gen s ft Hft) as H.
+  destruct (parse_str_to_epoch_seconds s) as [z|].
+  - unfold pruner_view, tsite_pruner_clamps in H. exact H.
+  - destruct H as [A [B [C [D E]]]]. repeat split; try assumption.
+    destruct E as [E|[E _]]; [exact E | unfold tsite_pruner_u64_fallback in E; discriminate].
+Qed.
+
+(** the materialiser's [parse::<u64>()] fall-back only takes 20-digit numbers 10^19..2^64-1 *)
+Lemma matspec_u64_fallback_range : forall s u,
+  parse_str_to_epoch_seconds s = None -> parse_since_epoch s = Some u -> 10 ^ 19 <= u <= u64_max.
+Proof.
+  intros s u Hn Hu. unfold parse_since_epoch in Hu. rewrite Hn in Hu.
+  exact (proj1 (u64_fallback_wraps_negative s u Hn Hu)).
 Qed.
 
 (** the pruner treats the raw literal and the literal normalised by the planner alike *)
@@ -390,55 +409,119 @@ Proof.
   - cbn [zti_ok]. clear - Hc Hb. lia.
 Qed.
 
-(** the current tree: literal and stamps of the zone in [0, 2^32) *)
-Theorem prune_sound_in_range : forall flag op v zones z t,
-  0 <= v < u32_mod ->
-  In z zones -> 0 <= zmin z -> zmax z < u32_mod ->
-  In t (z_ts z) -> cmp_holds op t v ->
-  exists ids, prune flag op (SInt v) zones = Some ids /\ In (z_id z) ids.
+Lemma zmin_le_zmax : forall z, zmin z <= zmax z.
 Proof.
-  intros flag op v zones z t Hv Hz Hlo Hhi Ht Hc. unfold prune.
-  apply (prune_gen_sound _ _ _ _ flag op v zones z t); auto;
-    [unfold u32_mod, tsite_bucket_mod in *; clear - Hv; lia | intros _; clear - Hv; lia].
+  intros z. unfold zmin, zmax. destruct (z_ts z) as [|x r]; [lia|].
+  pose proof (proj1 (fold_min_spec r x)). pose proof (proj1 (fold_max_spec r x)). lia.
 Qed.
 
-(** the tree with fixes/C16-pre-epoch-time-values.diff applied ([guard] and [clamps] off):
-    any literal instant below 2^32, negative ones included, any zone whose stamps are
-    below 2^32, pre-epoch stamps included *)
-Theorem prune_sound_after_fix : forall fb dflt flag op v zones z t,
+(** The current (repaired) tree: every literal second from i64::MIN up to 2^32 and every zone
+    whose stamps are below 2^32 — pre-1970 literals and stamps included.  The only remaining
+    exclusion is the u32 truncation of bucket ids (class CalendarBucketWrapsAfter2106). *)
+Theorem prune_sound : forall flag op v zones z t,
   - 2 ^ 63 <= v < u32_mod ->
   In z zones -> zmax z < u32_mod ->
   In t (z_ts z) -> cmp_holds op t v ->
-  exists ids, prune_gen false false fb dflt flag op (SInt v) zones = Some ids /\ In (z_id z) ids.
+  exists ids, prune flag op (SInt v) zones = Some ids /\ In (z_id z) ids.
 Proof.
-  intros fb dflt flag op v zones z t Hv Hz Hhi Ht Hc.
-  apply (prune_gen_sound false false fb dflt flag op v zones z t); auto; discriminate.
+  intros flag op v zones z t Hv Hz Hhi Ht Hc. unfold prune.
+  apply (prune_gen_sound _ _ _ _ flag op v zones z t); auto;
+    [unfold tsite_pruner_clamps | unfold tsite_cal_guard]; discriminate.
 Qed.
-
-(** ... on the witnesses of the known classes the repaired shapes give the right zones, and an
-    unparsable SINCE (value [i64::MIN]) restricts nothing *)
-Example after_fix_witnesses :
-  prune_gen false false false (- 2 ^ 63) false OEq (SInt 500) [mkZone 1 [0; 0]; mkZone 4 [-5; 500]] = Some [4%N]
-  /\ prune_gen false false false (- 2 ^ 63) false OGt (SInt (-1)) [mkZone 1 [0; 0]; mkZone 2 [10; 20]] = Some [1%N; 2%N]
-  /\ prune_gen false false false (- 2 ^ 63) false OEq (SInt (-50)) [mkZone 0 [-100; -50]; mkZone 1 [0; 0]] = Some [0%N]
-  /\ prune_gen false false false (- 2 ^ 63) false OGte
-       (SUtf8 [49;48;48;48;48;48;48;48;48;48;48;48;48;48;48;48;48;48;48;48]%N)
-       [mkZone 0 [-100; -50]; mkZone 1 [0; 0]; mkZone 2 [10; 20]] = Some [0%N; 1%N; 2%N].
-Proof. repeat split; vm_compute; reflexivity. Qed.
 
 (** ** ... and through the raw string literal (SINCE, or WHERE without planner rewriting) *)
 Corollary prune_sound_literal : forall flag op s v zones z t,
   parse_str_to_epoch_seconds s = Some v ->
-  0 <= v < u32_mod ->
-  In z zones -> 0 <= zmin z -> zmax z < u32_mod ->
+  - 2 ^ 63 <= v < u32_mod ->
+  In z zones -> zmax z < u32_mod ->
   In t (z_ts z) -> cmp_holds op t v ->
   exists ids, prune flag op (SUtf8 s) zones = Some ids /\ In (z_id z) ids.
 Proof.
   intros flag op s v zones z t E. rewrite (prune_literal_same flag op s v zones E).
-  apply prune_sound_in_range.
+  apply prune_sound.
 Qed.
 
-(** hypotheses of [prune_sound_in_range] are satisfiable, for every operator *)
+(** ** A SINCE literal that no parser accepts is ignored by the row filter — and restricts no
+    zone either: every zone of the segment stays, whatever its stamps (no 2^32 bound). *)
+Theorem unparsable_since_keeps_all : forall flag s zones z,
+  parse_str_to_epoch_seconds s = None ->
+  In z zones -> - 2 ^ 63 <= zmax z ->
+  site_since_row s = SinceIgnored /\
+  exists ids, prune flag OGte (site_since_filter s) zones = Some ids /\ In (z_id z) ids.
+Proof.
+  intros flag s zones z E Hz Hmax.
+  split; [pose proof (sites_agree s FDateTime eq_refl) as H; rewrite E in H; tauto|].
+  unfold site_since_filter, prune, prune_gen, pruner_ts_gen. rewrite E.
+  unfold tsite_pruner_u64_fallback, tsite_pruner_unparsable, tsite_pruner_clamps, tsite_cal_guard.
+  cbv zeta.
+  assert (W : wrap_i64 (- 2 ^ 63) = - 2 ^ 63) by reflexivity. rewrite W.
+  assert (V : Z.max (- 2 ^ 63) 0 = 0) by reflexivity. rewrite V.
+  assert (Hex : existsb (in_cal_gen false) zones = true)
+    by (apply existsb_exists; exists z; split; [exact Hz | reflexivity]).
+  rewrite Hex. cbn [negb Z.ltb Z.compare].
+  eexists. split; [reflexivity|]. apply in_map. apply filter_In. split.
+  - unfold cal_zones_ge_gen, tsite_bucket_day. apply filter_In. split; [exact Hz|].
+    apply existsb_exists.
+    pose proof (zmin_le_zmax z) as Hmm.
+    exists (((Z.max 0 (zmin z)) / 86400 * 86400) mod 2 ^ 32). split.
+    + unfold zone_buckets_gen, in_cal_gen.
+      apply (buckets_in 86400 (Z.max 0 (zmin z)) (Z.max 0 (zmax z)) (Z.max 0 (zmin z) / 86400)); [reflexivity|].
+      split; [apply Z.le_refl | apply Z.div_le_mono; [reflexivity | clear - Hmm; lia]].
+    + unfold bucket_id, u32_mod, tsite_bucket_mod. change (0 / 86400 * 86400) with 0.
+      change (0 mod 2 ^ 32) with 0.
+      pose proof (Z.mod_pos_bound (Z.max 0 (zmin z) / 86400 * 86400) (2 ^ 32) eq_refl) as B.
+      clear - B. lia.
+  - cbn [zti_ok]. clear - Hmax. lia.
+Qed.
+
+(** * The field selector: the pruner's answer, or every zone when it has none for [!=] *)
+
+(** "stored stamp [t] <op> literal [v]", with [!=] *)
+Definition cmp_holds_sel (op : cmpop) (t v : Z) : Prop :=
+  match op with ONeq => t <> v | _ => cmp_holds op t v end.
+
+Theorem select_sound : forall flag op v zones z t,
+  - 2 ^ 63 <= v < u32_mod ->
+  In z zones -> zmax z < u32_mod ->
+  In t (z_ts z) -> cmp_holds_sel op t v ->
+  In (z_id z) (select_zones flag op (SInt v) zones).
+Proof.
+  intros flag op v zones z t Hv Hz Hhi Ht Hc. unfold select_zones.
+  destruct (match op with ONeq => true | _ => false end) eqn:Eop.
+  - destruct op; try discriminate.
+    change (prune flag ONeq (SInt v) zones) with (@None (list N)).
+    unfold select_gen, tsite_selector_neq_all_zones. cbn [andb op_unanswered].
+    apply in_map. exact Hz.
+  - assert (Hc' : cmp_holds op t v) by (destruct op; try discriminate; exact Hc).
+    destruct (prune_sound flag op v zones z t Hv Hz Hhi Ht Hc') as [ids [E Hin]].
+    rewrite E. exact Hin.
+Qed.
+
+(** [!=] needs no bound at all: no zone of the segment is ruled out *)
+Theorem select_neq_keeps_all : forall flag sv zones z,
+  In z zones -> In (z_id z) (select_zones flag ONeq sv zones).
+Proof.
+  intros flag sv zones z Hz. unfold select_zones.
+  change (prune flag ONeq sv zones) with (@None (list N)).
+  unfold select_gen, tsite_selector_neq_all_zones. cbn [andb op_unanswered]. apply in_map. exact Hz.
+Qed.
+
+(** the witnesses of the repaired classes now give the right zones *)
+Example fixed_witnesses :
+  (* was PreEpochZoneNotInCalendar *)
+  prune false OEq (SInt 500) [mkZone 1 [0; 0]; mkZone 4 [-5; 500]] = Some [4%N]
+  /\ prune false OGte (SInt 0) [mkZone 1 [0; 0]; mkZone 4 [-5; 500]] = Some [1%N; 4%N]
+  /\ prune false OEq (SInt (-50)) [mkZone 0 [-100; -50]; mkZone 1 [0; 0]] = Some [0%N]
+  (* was NegativeInstantClampedByPruner *)
+  /\ prune false OGt (SInt (-1)) [mkZone 1 [0; 0]; mkZone 2 [10; 20]] = Some [1%N; 2%N]
+  (* was UnparsableSinceU64WrapsNegative *)
+  /\ prune false OGte (SUtf8 [49;48;48;48;48;48;48;48;48;48;48;48;48;48;48;48;48;48;48;48]%N)
+       [mkZone 0 [-100; -50]; mkZone 1 [0; 0]; mkZone 2 [10; 20]] = Some [0%N; 1%N; 2%N]
+  (* was TemporalNeqPrunesAllZones *)
+  /\ select_zones false ONeq (SInt 500) [mkZone 0 [0; 0]; mkZone 1 [10; 20]] = [0%N; 1%N].
+Proof. repeat split; vm_compute; reflexivity. Qed.
+
+(** hypotheses of [prune_sound] are satisfiable, for every operator *)
 Example prune_sound_witness :
   prune false OEq (SInt 104) [mkZone 1 [100; 104]; mkZone 2 [200]] = Some [1%N]
   /\ prune false OGt (SInt 104) [mkZone 1 [100; 104]; mkZone 2 [200]] = Some [2%N]
@@ -447,25 +530,7 @@ Example prune_sound_witness :
   /\ prune false OLte (SInt 100) [mkZone 1 [100; 104]; mkZone 2 [200]] = Some [1%N].
 Proof. repeat split; vm_compute; reflexivity. Qed.
 
-(** * Known classes: the pruner LOSES zones that hold matching events *)
-
-(** [PreEpochZoneNotInCalendar]: a zone holding any stamp before 1970 never enters the
-    field calendar (temporal_builder.rs), so its events are invisible to every
-    time-restricted query after FLUSH — here the stamp 500 of zone 4 for [t = 500]. *)
-Example pre_epoch_zone_refuted :
-  prune false OEq (SInt 500) [mkZone 1 [0; 0]; mkZone 4 [-5; 500]] = Some []
-  /\ prune false OGte (SInt 0) [mkZone 1 [0; 0]; mkZone 4 [-5; 500]] = Some [1%N]
-  /\ prune false OEq (SInt 500) [mkZone 4 [-5; 500]] = None.
-Proof. repeat split; vm_compute; reflexivity. Qed.
-
-(** [NegativeInstantClampedByPruner]: the literal 1969-12-31T23:59:59Z (-1) is clamped
-    to 0; [t > -1] then tests [max_ts > 0] and loses the zone whose stamps are all 0. *)
-Example negative_literal_refuted :
-  parse_str_to_epoch_seconds
-    [49;57;54;57;45;49;50;45;51;49;84;50;51;58;53;57;58;53;57;90]%N = Some (-1)
-  /\ prune false OGt (SInt (-1)) [mkZone 1 [0; 0]; mkZone 2 [10; 20]] = Some [2%N]
-  /\ cmp_holds OGt 0 (-1).
-Proof. split; [vm_compute; reflexivity|]. split; [vm_compute; reflexivity | cbn; lia]. Qed.
+(** * Remaining known class: the pruner LOSES zones that hold matching events *)
 
 (** [CalendarBucketWrapsAfter2106]: bucket ids are truncated to u32, so range lookups
     compare wrapped ids: a stamp in 2106 is not found by [t >= 1980-01-01]. *)
@@ -473,28 +538,6 @@ Example bucket_wrap_refuted :
   prune false OGte (SInt 315532800) [mkZone 3 [4295399296; 4295399297]] = Some []
   /\ cmp_holds OGte 4295399296 315532800.
 Proof. split; [vm_compute; reflexivity | cbn; lia]. Qed.
-
-(** [UnparsableSinceU64WrapsNegative]: SINCE "10000000000000000000" is ignored by the row
-    filter (all rows match) but the pruner reads it as u64, wraps it negative and
-    returns no zone at all. *)
-Example unparsable_since_refuted :
-  let s := [49;48;48;48;48;48;48;48;48;48;48;48;48;48;48;48;48;48;48;48]%N in
-  site_since_row s = SinceIgnored
-  /\ prune false OGte (site_since_filter s) [mkZone 1 [0; 0]; mkZone 2 [10; 20]] = Some [].
-Proof. split; vm_compute; reflexivity. Qed.
-
-(** an unparsable literal that is not such a number: the pruner takes 0 and keeps every
-    zone of the calendar for SINCE (>=) — a superset, harmless *)
-Example unparsable_since_superset :
-  let s := [97;98;99]%N in
-  site_since_row s = SinceIgnored
-  /\ prune false OGte (site_since_filter s) [mkZone 1 [0; 0]; mkZone 2 [10; 20]] = Some [1%N; 2%N].
-Proof. split; vm_compute; reflexivity. Qed.
-
-(** [TemporalNeqPrunesAllZones]: [!=] has no answer ([None]); the field selector turns that
-    into "no zone". *)
-Example neq_refuted : forall flag sv zones, prune flag ONeq sv zones = None.
-Proof. reflexivity. Qed.
 
 (** * Numeric strings: [parse_str_to_epoch_seconds] of a decimal string IS
       [normalize_integer_epoch] of the number (the RFC 3339 and date-only branches reject it) *)
